@@ -2,6 +2,7 @@ package main
 
 import (
 	"fmt"
+	"os"
 	"go/ast"
 	"go/token"
 	"go/types"
@@ -858,12 +859,14 @@ func (a *idxAnalyzer) retSig() string {
 // runAll analyses every function to a fixpoint of preconditions, return summaries and invariants.
 func (a *idxAnalyzer) runAll(fds []*ast.FuncDecl) {
 	a.computeInvariants()
+	tabs := a.collectFuncTables()
 	for round := 0; round < 8; round++ {
 		a.sites = nil
 		a.callObls = nil
 		a.final = false
 		prevBad := len(a.invBad)
 		prevRet := a.retSig() + fmt.Sprint(a.delta)
+		a.analyseFuncTables(tabs)
 		for _, fd := range fds {
 			a.analyseFunc(fd)
 		}
@@ -1051,5 +1054,149 @@ func (a *idxAnalyzer) runAll(fds []*ast.FuncDecl) {
 	a.progress = map[ast.Node]*progSite{}
 	for _, fd := range fds {
 		a.analyseFunc(fd)
+	}
+}
+
+// ---- function tables ----
+// A struct field of function type that is only ever set to function literals inside package-level
+// composite literals (a dispatch table) gets, as its return summary, the facts shared by all of those
+// literals: a call through the field then knows what a call of any entry guarantees.
+
+type funcTable struct {
+	lits  []*ast.FuncLit
+	dirty bool // also assigned something that is not a literal of a package-level table
+}
+
+func (a *idxAnalyzer) collectFuncTables() map[types.Object]*funcTable {
+	tabs := map[types.Object]*funcTable{}
+	get := func(o types.Object) *funcTable {
+		if tabs[o] == nil {
+			tabs[o] = &funcTable{}
+		}
+		return tabs[o]
+	}
+	isFuncField := func(o types.Object) bool {
+		v, ok := o.(*types.Var)
+		if !ok || !v.IsField() {
+			return false
+		}
+		_, isSig := v.Type().Underlying().(*types.Signature)
+		return isSig
+	}
+	for _, f := range a.pkg.Syntax {
+		topLevel := map[*ast.FuncLit]bool{}
+		for _, d := range f.Decls {
+			gd, ok := d.(*ast.GenDecl)
+			if !ok || gd.Tok != token.VAR {
+				continue
+			}
+			ast.Inspect(gd, func(n ast.Node) bool {
+				if kv, ok := n.(*ast.KeyValueExpr); ok {
+					if id, ok := kv.Key.(*ast.Ident); ok && isFuncField(a.info.Uses[id]) {
+						if lit, ok := ast.Unparen(kv.Value).(*ast.FuncLit); ok {
+							topLevel[lit] = true
+							t := get(a.info.Uses[id])
+							t.lits = append(t.lits, lit)
+						}
+					}
+				}
+				return true
+			})
+		}
+		// every other way of setting such a field makes the table open-ended
+		ast.Inspect(f, func(n ast.Node) bool {
+			switch x := n.(type) {
+			case *ast.KeyValueExpr:
+				if id, ok := x.Key.(*ast.Ident); ok && isFuncField(a.info.Uses[id]) {
+					if lit, ok := ast.Unparen(x.Value).(*ast.FuncLit); !ok || !topLevel[lit] {
+						get(a.info.Uses[id]).dirty = true
+					}
+				}
+			case *ast.AssignStmt:
+				for _, l := range x.Lhs {
+					if se, ok := ast.Unparen(l).(*ast.SelectorExpr); ok {
+						if sel, ok := a.info.Selections[se]; ok && isFuncField(sel.Obj()) {
+							get(sel.Obj()).dirty = true
+						}
+					}
+				}
+			case *ast.CompositeLit:
+				// positional struct literals
+				if st, ok := a.info.TypeOf(x).Underlying().(*types.Struct); ok && len(x.Elts) > 0 {
+					if _, keyed := x.Elts[0].(*ast.KeyValueExpr); !keyed {
+						for i := 0; i < st.NumFields() && i < len(x.Elts); i++ {
+							if isFuncField(st.Field(i)) {
+								get(st.Field(i)).dirty = true
+							}
+						}
+					}
+				}
+			}
+			return true
+		})
+	}
+	return tabs
+}
+
+func (a *idxAnalyzer) analyseFuncTables(tabs map[types.Object]*funcTable) {
+	fields := []types.Object{}
+	for o := range tabs {
+		fields = append(fields, o)
+	}
+	sort.Slice(fields, func(i, j int) bool { return fields[i].Pos() < fields[j].Pos() })
+	for _, field := range fields {
+		t := tabs[field]
+		if t.dirty || len(t.lits) == 0 {
+			delete(a.retLE, field)
+			continue
+		}
+		var shared []retFact
+		for i, lit := range t.lits {
+			sig, ok := a.info.TypeOf(lit).(*types.Signature)
+			if !ok {
+				shared = nil
+				break
+			}
+			id := types.NewVar(lit.Pos(), a.pkg.Types, fmt.Sprintf("tablelit@%d", lit.Pos()), sig)
+			saveFn, saveMuted := a.curFn, a.muted
+			a.curFn, a.muted = nil, true
+			a.setUnit(id, lit.Type.Params, nil)
+			a.retStates = nil
+			a.walkBody(lit.Body, a.entryZone())
+			a.summariseUnit(id, sig, lit.Type, lit.Body)
+			a.curFn, a.muted = saveFn, saveMuted
+			facts := append([]retFact{}, a.retLE[id]...)
+			for k := range facts {
+				if facts[k].param >= 0 {
+					facts[k].seqKey = "" // the name of the parameter does not matter to callers
+				}
+			}
+			if idxDebug != "" {
+				fmt.Fprintf(os.Stderr, "  tablelit %s#%d retStates=%d facts=%+v\n", field.Name(), i, len(a.retStates), facts)
+			}
+			delete(a.retLE, id)
+			if i == 0 {
+				shared = append([]retFact{}, facts...)
+				continue
+			}
+			var keep []retFact
+			for _, f := range shared {
+				for _, g := range facts {
+					if f == g {
+						keep = append(keep, f)
+						break
+					}
+				}
+			}
+			shared = keep
+		}
+		if idxDebug != "" {
+			fmt.Fprintf(os.Stderr, "functable %s lits=%d shared=%+v\n", field.Name(), len(t.lits), shared)
+		}
+		if len(shared) > 0 {
+			a.retLE[field] = shared
+		} else {
+			delete(a.retLE, field)
+		}
 	}
 }
